@@ -81,6 +81,13 @@ pub fn crypto_secretbox_open_detached(
     nonce: &Nonce,
     key: &Key,
 ) -> Result<(), Error> {
+    if message.len() < ciphertext.len() {
+        return Err(dryoc_error!(format!(
+            "message buffer too small ({} < {})",
+            message.len(),
+            ciphertext.len()
+        )));
+    }
     // authenticate and decrypt exactly the bytes received: a `message` buffer
     // longer than the ciphertext must not contribute to the authenticator
     let message = &mut message[..ciphertext.len()];
